@@ -4,12 +4,15 @@ id="$1"; chk="$2"; wt=/tmp/wt-$id; name="${3:-$id}"
 cd $wt || exit 2
 run_tests() { PYTHONPATH=$wt/src /venv/bin/python -m pytest -q -p no:cacheprovider --timeout=900 --continue-on-collection-errors 2>&1 | tail -1; }
 run_demo() { PYTHONPATH=$wt/src /venv/bin/python $wt/demo_$id.py >/dev/null 2>&1; echo $?; }
+# the worktrees share one refs/stash: never use git stash here. Normalise the worktree to exactly the agent's patch file.
+git checkout -q -- src
+git apply $wt/patch_$id.diff || { echo "patch_$id.diff does not apply"; exit 2; }
 git diff --quiet -- src && { echo "no change applied in $wt"; exit 2; }
 t_with=$(run_tests); d_with=$(run_demo)
 git diff -- src > /tmp/keep_$id.diff
-git stash -q -- src
+git apply -R /tmp/keep_$id.diff
 t_without=$(run_tests); d_without=$(run_demo)
-git stash pop -q
+git apply /tmp/keep_$id.diff
 echo "tests with: $t_with | without: $t_without | demo with: $d_with without: $d_without"
 out=$(cd /verif && tools/try_patch.sh /tmp/keep_$id.diff $chk 2>&1)
 echo "$out" | tail -4 | cut -c1-200
